@@ -8,6 +8,14 @@
 //     (none / e.Taskid / extractAndConvertEnvID(e)).
 //   - (common/event/fifobuffer.go) whether ReleaseGoroutines sets a flag before its Broadcast that
 //     PopMultiple tests, inside its empty-buffer loop and before cond.Wait, to return at once,
+//   - the producer side (WriteEvent / WriteEventWithTimestamp): that the hand-over to the batching
+//     loop is ONE plain blocking send of the converted message on toBatchMessagesChan — the only
+//     send on that channel in the file, not a case of a select, not inside a go / defer statement,
+//     a loop or a stored closure, no select and no go statement in the two functions at all, and
+//     the value sent is the local the conversion (internalEventToKafkaEvent, then
+//     kafkaEventToKafkaMessage, directly or through helpers of writer.go) produced before the send.
+//     Reported as five booleans (ew_pub_*); a function without any send on the channel, or a
+//     WriteEvent that does not call WriteEventWithTimestamp, is an unknown shape (failure).
 // It also checks the skeleton the model takes for granted (batchingLoop: range over the channel,
 // Push, send on the done channel, ReleaseGoroutines, Done — in this order; Close: Add(2), close of
 // the channel, Wait — in this order) and fails when it is not found.
@@ -359,6 +367,7 @@ func eventWriter() string {
 	}
 
 	sticky := ewReleaseSticky()
+	pub := ewPublishShape(f)
 
 	var b strings.Builder
 	b.WriteString("(* regenerated on every run by harness/cmd/translate (eventwriter) from\n   common/event/writer.go and common/event/fifobuffer.go *)\n")
@@ -369,6 +378,12 @@ func eventWriter() string {
 	fmt.Fprintf(&b, "Definition ew_drain_on_done : bool := %v.  (* done branch drains the buffer before returning *)\n", drain)
 	fmt.Fprintf(&b, "Definition ew_drain_batch_max : N := %d.   (* PopMultiple argument, drain loop *)\n", drainMax)
 	fmt.Fprintf(&b, "Definition ew_release_sticky : bool := %v. (* ReleaseGoroutines sets a flag, before Broadcast, on which PopMultiple returns instead of waiting *)\n", sticky)
+	b.WriteString("(* producer side, WriteEvent / WriteEventWithTimestamp: the hand-over to the batching loop *)\n")
+	fmt.Fprintf(&b, "Definition ew_pub_single_send : bool := %v.   (* exactly one send statement on toBatchMessagesChan in writer.go, and it is in WriteEventWithTimestamp *)\n", pub.single)
+	fmt.Fprintf(&b, "Definition ew_pub_plain_send : bool := %v.    (* every such send is a plain statement: not a select case, not under go / defer, not in a loop, not in a stored closure *)\n", pub.plain)
+	fmt.Fprintf(&b, "Definition ew_pub_no_select : bool := %v.     (* no select statement in WriteEvent / WriteEventWithTimestamp *)\n", pub.noSelect)
+	fmt.Fprintf(&b, "Definition ew_pub_no_go : bool := %v.         (* no go statement in WriteEvent / WriteEventWithTimestamp; WriteEvent calls WriteEventWithTimestamp synchronously *)\n", pub.noGo)
+	fmt.Fprintf(&b, "Definition ew_pub_convert_first : bool := %v. (* the value sent is the local assigned, before the send, from the conversion internalEventToKafkaEvent ; kafkaEventToKafkaMessage *)\n", pub.convertFirst)
 	b.WriteString("(* key source per case of the type switch in internalEventToKafkaEvent:\n   0 = no key, 1 = e.Taskid, 2 = extractAndConvertEnvID(e).  Kinds: ")
 	for i, k := range ewKinds {
 		fmt.Fprintf(&b, "%d=%s ", i, k)
@@ -490,4 +505,171 @@ func ewReleaseSticky() bool {
 		}
 	}
 	return false
+}
+
+// ---------- producer side ----------
+
+type ewPub struct {
+	single, plain, noSelect, noGo, convertFirst bool
+}
+
+// one occurrence of a statement / call of interest together with how it is nested
+type ewOcc struct {
+	node  ast.Node
+	plain bool // reached from the function body through blocks, ifs, switches and immediately
+	// invoked function literals only (no go / defer / select / loop / stored closure)
+}
+
+// ewScan walks body with an explicit ancestor stack.  want(n) selects the nodes to report.
+func ewScan(body ast.Node, want func(ast.Node) bool) (occ []ewOcc, selects, gos int) {
+	var stack []ast.Node
+	ast.Inspect(body, func(n ast.Node) bool {
+		if n == nil {
+			stack = stack[:len(stack)-1]
+			return true
+		}
+		switch n.(type) {
+		case *ast.SelectStmt:
+			selects++
+		case *ast.GoStmt:
+			gos++
+		}
+		if want(n) {
+			plain := true
+			for i, a := range stack {
+				switch v := a.(type) {
+				case *ast.GoStmt, *ast.DeferStmt, *ast.SelectStmt, *ast.CommClause, *ast.ForStmt, *ast.RangeStmt:
+					plain = false
+				case *ast.FuncLit:
+					// must be called on the spot, as a statement: ExprStmt(CallExpr(FuncLit))
+					ok := false
+					if i >= 2 {
+						if c, isCall := stack[i-1].(*ast.CallExpr); isCall && c.Fun == ast.Expr(v) {
+							if _, isStmt := stack[i-2].(*ast.ExprStmt); isStmt {
+								ok = true
+							}
+						}
+					}
+					if !ok {
+						plain = false
+					}
+				}
+			}
+			occ = append(occ, ewOcc{n, plain})
+		}
+		stack = append(stack, n)
+		return true
+	})
+	return
+}
+
+func ewIsChanSend(n ast.Node) bool {
+	s, ok := n.(*ast.SendStmt)
+	return ok && ewMentions(s.Chan, "toBatchMessagesChan")
+}
+
+// names of the functions of writer.go reachable from the calls inside n (n included), through
+// the bodies of functions / methods declared in writer.go
+func ewCallClosure(f *ast.File, n ast.Node, before token.Pos, into map[string]bool, depth int) {
+	if n == nil || depth > 5 {
+		return
+	}
+	ast.Inspect(n, func(x ast.Node) bool {
+		c, ok := x.(*ast.CallExpr)
+		if !ok || (before != token.NoPos && c.Pos() >= before) {
+			return true
+		}
+		name := ewCallName(c)
+		if name == "" || into[name] {
+			return true
+		}
+		for _, d := range f.Decls {
+			if fd, ok := d.(*ast.FuncDecl); ok && fd.Name.Name == name && fd.Body != nil {
+				into[name] = true
+				ewCallClosure(f, fd.Body, token.NoPos, into, depth+1)
+			}
+		}
+		return true
+	})
+}
+
+func ewPublishShape(f *ast.File) ewPub {
+	wt := findFunc(f, "KafkaWriter", "WriteEventWithTimestamp")
+	we := findFunc(f, "KafkaWriter", "WriteEvent")
+	if wt == nil || we == nil || wt.Body == nil || we.Body == nil {
+		die("eventwriter: (*KafkaWriter).WriteEvent / WriteEventWithTimestamp not found")
+	}
+	// every send on the channel in the whole file
+	total := 0
+	for _, d := range f.Decls {
+		if fd, ok := d.(*ast.FuncDecl); ok && fd.Body != nil {
+			occ, _, _ := ewScan(fd.Body, ewIsChanSend)
+			total += len(occ)
+		}
+	}
+	sends, selects, gos := ewScan(wt.Body, ewIsChanSend)
+	if len(sends) == 0 {
+		die("eventwriter: WriteEventWithTimestamp has no send on toBatchMessagesChan (hand-over to the batching loop not recognised)")
+	}
+	// WriteEvent -> WriteEventWithTimestamp, synchronously
+	calls, sel2, gos2 := ewScan(we.Body, func(n ast.Node) bool {
+		c, ok := n.(*ast.CallExpr)
+		return ok && ewCallName(c) == "WriteEventWithTimestamp"
+	})
+	if len(calls) != 1 {
+		die("eventwriter: WriteEvent does not call WriteEventWithTimestamp exactly once")
+	}
+	p := ewPub{
+		single:   total == 1 && len(sends) == 1,
+		plain:    true,
+		noSelect: selects+sel2 == 0,
+		noGo:     gos+gos2 == 0 && calls[0].plain,
+	}
+	p.convertFirst = true
+	for _, o := range sends {
+		if !o.plain {
+			p.plain = false
+		}
+		s := o.node.(*ast.SendStmt)
+		// the expression that yields the value: the call itself, or the last assignment to the
+		// local before the send
+		var src ast.Expr
+		switch v := s.Value.(type) {
+		case *ast.CallExpr:
+			src = v
+		case *ast.Ident:
+			var last *ast.AssignStmt
+			ast.Inspect(wt.Body, func(x ast.Node) bool {
+				as, ok := x.(*ast.AssignStmt)
+				if !ok || as.Pos() >= s.Pos() {
+					return true
+				}
+				for _, l := range as.Lhs {
+					if id, ok := l.(*ast.Ident); ok && id.Name == v.Name {
+						if last == nil || as.Pos() > last.Pos() {
+							last = as
+						}
+					}
+				}
+				return true
+			})
+			if last != nil && len(last.Rhs) == 1 {
+				if c, ok := last.Rhs[0].(*ast.CallExpr); ok {
+					src = c
+				}
+			}
+		}
+		if src == nil {
+			p.convertFirst = false
+			continue
+		}
+		fromSrc := map[string]bool{}
+		ewCallClosure(f, src, token.NoPos, fromSrc, 0)
+		before := map[string]bool{}
+		ewCallClosure(f, wt.Body, s.Pos(), before, 0)
+		if !fromSrc["kafkaEventToKafkaMessage"] || !before["internalEventToKafkaEvent"] {
+			p.convertFirst = false
+		}
+	}
+	return p
 }
